@@ -31,11 +31,11 @@ impl Property for Prop {
         "C04"
     }
     fn rule(&self) -> &'static str {
-        "exhaustive: every lock-step history of the given depth (quick 4, thorough 5) over a 46-operation alphabet: encap fitting / fragmenting / failing (too small) for labels {A6,B6,C3,D3,broadcast,explicit re-use}; encap_ext (fitting for {A6,C3,broadcast}, fragmenting for {A6,C3}), PDU-too-long and bad-protocol-type failures for {A6,C3,broadcast}; zero label; a 6-byte label numerically equal to the 3-byte one; a 6-byte label sharing its first three bytes with another; signalling PDUs (encap_ext with the final mandatory extension 0x0081, receiver with the signalisation table) for {B6, broadcast}; first fragments leaving only a few bytes / carrying no payload byte; encap_frag continuation of the oldest pending train; encap_frag called again with a stale context (a train superseded on its fragment id, or the end packet of a finished train re-sent: the receiver refuses it, nothing is demanded about the PDUs so mixed, everything else must stay attributable and deliverable); reset of both sides; disable; enable; enable_max(0/1/2); the accessor calls set_crc_calculator (an equal calculator) / get_crc_calculator / is_enabled_re_use_label, which must not touch the label policy; each produced packet is fed to the receiver at once; key = first two operations. random: seeded histories of 50..2000 operations. rxstreams: traffic recorded from a random history, then mutated (drops, duplicates, swaps, byte corruption, junk and padding insertion, resets at random points) and fed to a fresh receiver (half of them with scarce storage, so that packets rejected for lack of storage sit between label-carrying and re-use packets) under the receiver-only clause. Non-trivial = a history in which the receiver resolved at least one re-use label or delivered at least one PDU; fingerprint = hash of the operation sequence / mutated stream."
+        "exhaustive: every lock-step history of the given depth (quick 4, thorough 5) over a 52-operation alphabet: encap fitting / fragmenting / failing (too small) for labels {A6,B6,C3,D3,broadcast,explicit re-use}; encap_ext (fitting for {A6,C3,broadcast}, fragmenting for {A6,C3}), PDU-too-long and bad-protocol-type failures for {A6,C3,broadcast}; PDUs too long only because of the label they would carry; encap_ext with a wrong final mandatory extension; signalling protocol types through plain encap; the receiving application draining its pool with new_pdu and refilling it; fragment ids 0..=7 on the 4-slot receiver (a first fragment claims its slot); zero label; a 6-byte label numerically equal to the 3-byte one; a 6-byte label sharing its first three bytes with another; signalling PDUs (encap_ext with the final mandatory extension 0x0081, receiver with the signalisation table) for {B6, broadcast}; first fragments leaving only a few bytes / carrying no payload byte; encap_frag continuation of the oldest pending train; encap_frag called again with a stale context (a train superseded on its fragment id, or the end packet of a finished train re-sent: the receiver refuses it, nothing is demanded about the PDUs so mixed, everything else must stay attributable and deliverable); reset of both sides; disable; enable; enable_max(0/1/2); the accessor calls set_crc_calculator (an equal calculator) / get_crc_calculator / is_enabled_re_use_label, which must not touch the label policy; each produced packet is fed to the receiver at once; key = first two operations. restart on the previous fragment id; random: seeded histories of 50..2000 operations. restarts: scripted restarts of a fragment id (label kinds, primed or not, explicit re-use after a reset whose first fragment is refused and must take the older train with it, filler calls so that both PDUs have equal bytes), everything pending continued afterwards. rxstreams: traffic recorded from a random history, then mutated (drops, duplicates, swaps, byte corruption, junk and padding insertion, resets at random points) and fed to a fresh receiver (half of them with scarce storage, so that packets rejected for lack of storage sit between label-carrying and re-use packets) under the receiver-only clause. Non-trivial = a history in which the receiver resolved at least one re-use label or delivered at least one PDU; fingerprint = hash of the operation sequence / mutated stream."
     }
     fn gens(&self, cx: &Cx) -> Vec<Gen> {
         let a = alphabet_c04().len() as u64;
-        vec![Gen { name: "exhaustive", count: a * a, exhaustive: true }, Gen { name: "random", count: cx.n(2_000, 200_000), exhaustive: false }, Gen { name: "rxstreams", count: cx.n(10_000, 400_000), exhaustive: false }]
+        vec![Gen { name: "exhaustive", count: a * a, exhaustive: true }, Gen { name: "random", count: cx.n(2_000, 200_000), exhaustive: false }, Gen { name: "rxstreams", count: cx.n(10_000, 400_000), exhaustive: false }, Gen { name: "restarts", count: 64, exhaustive: true }]
     }
     fn run_key(&self, cx: &Cx, gen: &str, key: u64, rep: &mut Report) {
         let replay_s = format!("gen={} key={} seed={} profile={}", gen, key, cx.seed, cx.profile);
@@ -72,6 +72,39 @@ impl Property for Prop {
                     }
                 }
                 rep.count_n("c04.histories", total as u64);
+            }
+            "restarts" => {
+                // scripted restarts of a fragment id: [prefix] PDU 1 fragments on id X; (reset); PDU 2 on the SAME id with
+                // label l2 (explicit re-use after a reset cannot be resolved: its first fragment is refused, and with it
+                // the id's older train); then everything pending is continued.  Both PDUs have equal bytes every second
+                // call, so that a fragment attached to the wrong train passes the length and CRC checks.
+                use super::labelops::Outcome;
+                let l1 = [0u8, 2, 1, 3][(key % 4) as usize];
+                let l2 = [5u8, 5, 0, 2][((key / 4) % 4) as usize];
+                let primed = (key / 16) % 2 == 1;
+                let o1 = [Outcome::Fragments, Outcome::HeaderOnly][((key / 32) % 2) as usize];
+                for filler in 0..3usize {
+                    for reset in [true, false] {
+                        let mut h: Vec<Op> = Vec::new();
+                        if primed {
+                            h.push(Op::Enc { label: l1, outcome: Outcome::Fits, ext: false });
+                        }
+                        h.push(Op::Enc { label: l1, outcome: o1, ext: false });
+                        for _ in 0..filler {
+                            h.push(Op::Enc { label: 4, outcome: Outcome::TooSmall, ext: false });
+                        }
+                        h.push(Op::SameId);
+                        if reset {
+                            h.push(Op::Reset);
+                        }
+                        h.push(Op::Enc { label: l2, outcome: Outcome::Fragments, ext: false });
+                        h.extend([Op::Cont, Op::Cont, Op::ContStale, Op::Enc { label: l1, outcome: Outcome::Fits, ext: false }]);
+                        let ex = run_history(&h, false, rep, &replay);
+                        rep.count_n("c04.packets", ex.emitted_packets);
+                        rep.count("c04.restart-scripts");
+                        rep.nontrivial(mix(0x2E57, mix(key, (filler * 2 + reset as usize) as u64)));
+                    }
+                }
             }
             "random" => {
                 let n = 50 + rng.below(1950);
